@@ -87,6 +87,7 @@ def guards(rep, prog, rule):
             rep.unk(rule, key, f.loc, "no Some return found")
             continue
         missing = set()
+        unknown_forms = set()
         wrong_axis = []
         for bb in some_blocks:
             nf = []
@@ -114,10 +115,26 @@ def guards(rep, prog, rule):
                 if le(size, other_extent) is not None:
                     wrong_axis.append("%s is compared with the view's other dimension" % axis)
                 missing.add("%s <= self.%s()" % (axis, axis))
-            if le(start, lambda r: r[0] == "bin" and r[1] == "Sub" and extent(r[2])
-                  and r[3] == size) is None:
-                missing.add("%s <= self.%s() - %s" % (START[axis], axis, axis))
-        if not missing:
+            g3 = le(start, lambda r: r[0] == "bin" and r[1] == "Sub" and extent(r[2])
+                    and r[3] == size) is not None
+            if not g3:
+                # equivalent form: start + size <= extent (a wrapping sum is C14.arith's business)
+                for (op, x, y) in nf:
+                    for (o, l, r) in ((op, x, y), (ranges.FLIP[op], y, x)):
+                        if o in ("Le", "Lt") and extent(r) and l[0] == "bin" and l[1] == "Add" \
+                                and {l[2], l[3]} == {start, size}:
+                            g3 = True
+            if not g3:
+                related = any(ranges.mentions(("x", a, b), start) and
+                              (ranges.mentions(("x", a, b), size) or "%s(" % axis in fmt(("bin", op, a, b)))
+                              for (op, a, b) in nf)
+                if related:
+                    unknown_forms.add("%s vs %s" % (START[axis], axis))
+                else:
+                    missing.add("%s <= self.%s() - %s" % (START[axis], axis, axis))
+        if not missing and unknown_forms:
+            rep.unk(rule, key, f.loc, "a guard relates %s in an unrecognised form" % sorted(unknown_forms))
+        elif not missing:
             rep.ok(rule, key, f.loc, "all three guards dominate the Some return")
         else:
             for g in sorted(missing):
@@ -356,13 +373,13 @@ def run(rep, tier):
     cfgs = ["x86"] if tier == "quick" else ["x86", "x86-rayon", "arm", "wasm"]
     for cfg, prog in programs(cfgs):
         rep.set_cfg(cfg)
-        guards(rep, prog, "C14.guards")
-        count(rep, prog, "C14.count")
-        offsets(rep, prog, "C14.offsets")
-        aliasing(rep, prog, "C14.aliasing")
+        rep.call(guards, rep, prog, "C14.guards")
+        rep.call(count, rep, prog, "C14.count")
+        rep.call(offsets, rep, prog, "C14.offsets")
+        rep.call(aliasing, rep, prog, "C14.aliasing")
         if cfg != "wasm":
-            n = c03.arith(rep, prog, "C14.arith", only=lambda f: "split_by_" in f.name)
+            n = rep.call(c03.arith, rep, prog, "C14.arith", only=lambda f: "split_by_" in f.name) or 0
             rep.floor("C14.arith", "arithmetic asserts in splits", n, 40)
     if tier == "thorough":
         rep.set_cfg("witness")
-        witness.report(rep, "C14.types", ["W3", "W5"])
+        rep.call(witness.report, rep, "C14.types", ["W3", "W5"])
